@@ -940,6 +940,8 @@ def r02_s(ctx):
     # r09_2: the hex digit planes - an invalid digit of a \\u escape is rejected only if its table entry carries the marker
     for fn in (c09.r09_2, c09.r09_3, c09.r09_4, c09.r09_6, c09.r09_8):
         ctx.include(fn, 'R02.S')
+    from . import c07
+    ctx.include(c07.r07_8, 'R02.S')  # the float fast path assembles normal doubles only: outside its exponent range it returns inf/NaN bits that the finiteness test never sees (a number beyond f64 is accepted)
 
 
 RULES = [("R02.1", r02_1), ("R02.2", r02_2), ("R02.3", r02_3), ("R02.3b", r02_3b), ("R02.4", r02_4), ("R02.5", r02_5), ("R02.6", r02_6), ("R02.7", r02_7), ("R02.8", r02_8), ("R02.9", r02_9), ("R02.10", r02_10), ("R02.11", r02_11), ("R02.12", r02_12), ("R02.13", r02_13), ("R02.S", r02_s)]
